@@ -700,4 +700,23 @@ theorem getoptGo_skip (os : Str) (a : Str) (l : List Str) : getoptGo os true (a 
   rw [getoptGo]
 
 
+/-- `Spelled os opts operands ws`: `ws` is one of the ways getopt(3) lets the option sequence `opts` followed by the
+    operands be WRITTEN: each option a word of its own, its argument in the next word (`sep`) or attached (`att`),
+    a flag glued in front of the next option word (`glue`: clusters like `-Nbf3`), the options ended by `--`, by the
+    first word that is not option-like, or by the end of the command line -/
+inductive Spelled (os : Str) : List OptW → List Str → List Str → Prop where
+  | dashdash (ops : List Str) : Spelled os [] ops (['-', '-'] :: ops)
+  | empty : Spelled os [] [] []
+  | stop (a : Str) (rest : List Str) (h : ∀ c cs, a ≠ '-' :: c :: cs) : Spelled os [] (a :: rest) (a :: rest)
+  | flag {ch : Char} {opts : List OptW} {ops ws : List Str} (hk : optKind os ch = some false) (hne : ch ≠ '-')
+      (h : Spelled os opts ops ws) : Spelled os (⟨ch, none⟩ :: opts) ops (['-', ch] :: ws)
+  | sep {ch : Char} {a : Str} {opts : List OptW} {ops ws : List Str} (hk : optKind os ch = some true) (hne : ch ≠ '-')
+      (h : Spelled os opts ops ws) : Spelled os (⟨ch, some a⟩ :: opts) ops (['-', ch] :: a :: ws)
+  | att {ch : Char} {a : Str} {opts : List OptW} {ops ws : List Str} (hk : optKind os ch = some true) (hne : ch ≠ '-')
+      (ha : a ≠ []) (h : Spelled os opts ops ws) : Spelled os (⟨ch, some a⟩ :: opts) ops (('-' :: ch :: a) :: ws)
+  | glue {f : Char} {w : Str} {opts : List OptW} {ops ws : List Str} (hk : optKind os f = some false) (hne : f ≠ '-')
+      (hw : w ≠ []) (hw' : w ≠ ['-']) (h : Spelled os opts ops (('-' :: w) :: ws)) :
+      Spelled os (⟨f, none⟩ :: opts) ops (('-' :: f :: w) :: ws)
+
+
 end PdshVerif.Opt
